@@ -50,12 +50,26 @@ impl Ctx {
     /// A reader history with the implementation's observations (kinds sbr, range, zero-copy; plain and short-read inner).
     pub fn coq_reader(&mut self, kind: usize, data: &[u8], cfg: &[u64], obs: &[(Op, Out)], force: bool) {
         let gc = |i: usize, d: u64| cfg.get(i).copied().unwrap_or(d);
+        // a buffered reader stacked on a RangeReader over a cursor reads a cursor over the range's bytes
+        // (theorem range_read_is_cursor_read): the buffered-reader model over the slice
+        let slice_owned: Vec<u8>;
+        let data: &[u8] = if kind == 10 {
+            let dl0 = data.len() as u64;
+            let (st, ln) = (gc(7, 0), gc(8, dl0));
+            slice_owned = data[(st.min(dl0) as usize)..(st.saturating_add(ln).min(dl0) as usize)].to_vec();
+            &slice_owned
+        } else { data };
         let dl = data.len() as u64;
         // the preset constructors whose growth factor the model has (performance_optimized 2.0, low_latency 1.5) and ZeroCopyReader::new:
         // the same state machines with the preset's numbers (page alignment 4096 divides every preset capacity)
         let preset: Option<(i128, [i128; 6])> = match kind {
             11 => match gc(0, 0) % 5 { 1 => Some((0, [131072, 4194304, 1, 4, 4096, 0])), 3 => Some((0, [8192, 262144, 0, 1, 2048, 1])), _ => return },
             12 => Some((2, [65536, 65536, 1, 2, 8192, 0])),
+            10 => {
+                if gc(10, 0) > 1 { return; }
+                let cap = gc(0, 8).max(1);
+                Some((0, [cap as i128, gc(1, 0).max(cap) as i128, gc(2, 1) as i128, gc(3, 2) as i128, gc(4, 8192).max(1) as i128, gc(5, 0) as i128]))
+            }
             _ => None,
         };
         let mut force = force;
@@ -64,7 +78,7 @@ impl Ctx {
             if *self.uni_used.get(&preset_cell).unwrap_or(&0) >= 40 * self.coq_budget / 2400 || data.len() > 5000 || obs.len() > 80 { return; }
             force = true;
         }
-        let (model_kind, chunky) = match kind { 0 => (0, false), 1 => (0, true), 2 => (1, false), 3 => (1, true), 4 => (2, false), 5 => (2, true), 11 => (0, gc(6, 0) != 0), 12 => (2, gc(6, 0) != 0), _ => return };
+        let (model_kind, chunky) = match kind { 0 => (0, false), 1 => (0, true), 2 => (1, false), 3 => (1, true), 4 => (2, false), 5 => (2, true), 11 => (0, gc(6, 0) != 0), 12 => (2, gc(6, 0) != 0), 10 => (0, false), _ => return };
         if (preset.is_none() && data.len() > 200) || obs.len() > 80 { return; }
         // non-default page alignment changes the capacity, the other constructors are not modelled
         if preset.is_none() && (cfg.get(10).copied().unwrap_or(0) > 1 || cfg.get(11).copied().unwrap_or(0) != 0) { return; }
